@@ -12,10 +12,10 @@ CONSTANTS Kinds          \* subset of {"sign", "extend"}
 (* reply attributes and their good value.  Numeric attributes are 64-bit on the wire: besides an ordinary wrong value the server may    *)
 (* send values that coincide with the good one in their low 8 / 16 / 32 bits ("wide": good value + 2^32; statuses as hex strings).   *)
 Status == {"0", "0x101", "0x100", "0x10000", "0x100000000", "0x8000000000000000", "0xffffffff00000000"}
-SignDom == [what |-> {"resp", "errpdu", "garbage", "close"}, mac |-> {"ok", "bad", "missing", "otherkey", "otheralg"}, hdr |-> {"ok", "missing"},
+SignDom == [what |-> {"resp", "errpdu", "garbage", "close"}, mac |-> {"ok", "bad", "badlast", "missing", "otherkey", "otheralg"}, hdr |-> {"ok", "missing"},
             ver |-> {"v2", "v1"}, status |-> Status, id |-> {"same", "other", "stale", "wide"}, hash |-> {"same", "other"}, cons |-> {"ok", "broken"},
             body |-> {"full", "empty"}]        \* the response payload carries the chains / only id, status and error message
-ExtDom == [what |-> {"resp", "errpdu", "garbage", "close"}, mac |-> {"ok", "bad", "missing", "otherkey", "otheralg"}, hdr |-> {"ok", "missing"},
+ExtDom == [what |-> {"resp", "errpdu", "garbage", "close"}, mac |-> {"ok", "bad", "badlast", "missing", "otherkey", "otheralg"}, hdr |-> {"ok", "missing"},
            ver |-> {"v2", "v1"}, status |-> Status, id |-> {"same", "other", "wide"}, aggrtime |-> {"same", "other", "wide"}, pubtime |-> {"same", "other", "wide"},
            shape |-> {"ok", "bad"}, input |-> {"same", "other"}, rlinks |-> {"agree", "altered"}, body |-> {"full", "empty"}]
 InDom(a, D) == DOMAIN a = DOMAIN D /\ \A f \in DOMAIN D : a[f] \in D[f]
@@ -35,7 +35,8 @@ vars == <<phase, req, reply, result>>
 SignReqs == {[kind |-> "sign", alg |-> a, level |-> l, api |-> p] : a \in {"sha256", "sha512", "sha1"}, l \in {0, 3, 250}, p \in {"aggregated", "create", "async"}}
             \ {x \in [kind : {"sign"}, alg : {"sha256", "sha512", "sha1"}, level : {3, 250}, api : {"create"}] : TRUE}
 (* targets: none (head), the signature's old publication time, the aggregation time itself, later, earlier, a supplied publication record *)
-Targets == {"head", "equal", "ataggr", "later", "earlier", "pubrec"}
+(* pubrecBad: a supplied publication record with the requested time but a hash that is not the calendar root at that time *)
+Targets == {"head", "equal", "ataggr", "later", "earlier", "pubrec", "pubrecBad"}
 ExtReqs == {[kind |-> "extend", oldcal |-> c, oldanchor |-> an, target |-> t] :
                c \in BOOLEAN, an \in {"none", "pub", "auth"}, t \in Targets}
             \ {x \in [kind : {"extend"}, oldcal : {FALSE}, oldanchor : {"pub", "auth"}, target : Targets] : TRUE}
@@ -58,8 +59,8 @@ ServerReplies(a) ==
 
 (* the client accepts exactly the authentic, status-zero, matching, consistent reply *)
 Good(r, a) == IF r.kind = "sign" THEN Diff(a, GoodSign) = {} /\ r.alg # "sha1"
-              ELSE /\ Diff(a, GoodExt) \subseteq ((IF ~r.oldcal THEN {"rlinks"} ELSE {}) \cup (IF r.target = "head" THEN {"pubtime"} ELSE {}))
-                   /\ r.target # "earlier"
+              ELSE /\ Diff(a, GoodExt) \subseteq ((IF ~r.oldcal /\ r.target \notin {"pubrec", "pubrecBad"} THEN {"rlinks"} ELSE {}) \cup (IF r.target = "head" THEN {"pubtime"} ELSE {}))
+                   /\ r.target \notin {"earlier", "pubrecBad"}        \* the result must verify with the supplied record: its hash has to be the new chain's root
 Finish == /\ phase = "replied" /\ phase' = "done"
           /\ result' = IF Good(req, reply) THEN "success" ELSE "error"
           /\ UNCHANGED <<req, reply>>
@@ -78,6 +79,7 @@ SuccessOnlyIfValid ==
         /\ reply.what = "resp" /\ reply.mac = "ok" /\ reply.hdr = "ok" /\ reply.ver = "v2" /\ reply.status = "0" /\ reply.id = "same" /\ reply.body = "full"
         /\ req.kind = "sign" => (reply.hash = "same" /\ reply.cons = "ok" /\ ~RefusedLocally(req) /\ req.alg # "sha1")
         /\ req.kind = "extend" => (reply.aggrtime = "same" /\ reply.shape = "ok" /\ reply.input = "same"
-                                  /\ (req.target # "head" => reply.pubtime = "same") /\ (req.oldcal => reply.rlinks = "agree"))
+                                  /\ (req.target # "head" => reply.pubtime = "same") /\ (req.oldcal \/ req.target = "pubrec" => reply.rlinks = "agree")
+                                  /\ req.target # "pubrecBad")
 NothingSentWhenRefused == RefusedLocally(req) => phase \in {"idle", "done"} /\ reply.what = "-"
 =============================================================================
